@@ -138,7 +138,10 @@ class NS:
         try:
             return self._d[k]
         except KeyError:
-            raise AttributeError(k)
+            if k.startswith("__"):
+                raise AttributeError(k)
+            # the code under contract no longer has this local: the loop contract does not apply (undecided, never a crash)
+            raise OutOfSubset(f"loop contract refers to local {k!r}, which the function no longer has")
 
     def __contains__(self, k):
         return k in self._d
